@@ -118,7 +118,9 @@ def run(prop, tier, seed, ctx):
     # (a) a corrupted observation must be rejected
     rng = random.Random(seed)
     corrupted = []
-    for t in traces[:50]:
+    rejected_ids = {tid for tid, _, _ in rej}
+    # corrupt only histories the specification accepted (a wrong observation flipped would become right)
+    for t in [t for i, t in enumerate(traces, 1) if i not in rejected_ids][:50]:
         ev = json.loads(json.dumps(t["events"]))
         last = ev[-1]["obs"]
         if prop == "C01":
